@@ -258,10 +258,13 @@ Apply(st, e, dv) ==
     [] e.op = "crash" -> [st |-> Kill(st, p), res |-> R("ok")]
     [] e.op = "exit" ->
          \* orderly end: the destructors run (lock released, managers dropped one by one)
-         LET names == {m.name : m \in {x \in st.mg.ms : x.p = p}}
+         LET mine == {x \in st.mg.ms : x.p = p}
              mg1 == DropProc(st.mg, p)
-             gone(nm) == "FX05h" \in dv \/ ~\E m \in mg1.ms : m.name = nm
-             mg2 == [mg1 EXCEPT !.nm = [x \in DOMAIN @ |-> IF x \in names /\ gone(x) THEN 0 ELSE @[x]]]
+             \* M2: a name goes when the last living manager of ITS object goes; the code unlinks the name at every drop,
+             \* whatever object it denotes by now
+             gone(nm) == IF "FX05h" \in dv THEN \E m \in mine : m.name = nm
+                         ELSE (\E m \in mine : m.name = nm /\ m.ob = st.mg.nm[nm]) /\ ~\E m \in mg1.ms : m.ob = st.mg.nm[nm]
+             mg2 == [mg1 EXCEPT !.nm = [x \in DOMAIN @ |-> IF gone(x) THEN 0 ELSE @[x]]]
          IN [st |-> [st EXCEPT !.pr[p] = [Proc0 EXCEPT !.alive = FALSE], !.lock = IF @ = p THEN 0 ELSE @, !.mg = mg2], res |-> R("ok")]
     [] e.op = "load" ->
          IF me.map = 0 THEN [st |-> st, res |-> R("nomap")]
@@ -290,7 +293,7 @@ Apply(st, e, dv) ==
          ELSE [st |-> WithCb(st, p, [cb EXCEPT !.pt = RecountR(@)]), res |-> R("ok")]
     [] e.op = "excl" ->
          IF ~cb.some THEN [st |-> st, res |-> R("nocb")]
-         ELSE LET c == IF cb.ver >= 5 THEN [cb EXCEPT !.ex = e.on] ELSE cb IN
+         ELSE LET c == IF cb.ver >= 5 THEN [cb EXCEPT !.ex = Fld(e, "on", FALSE)] ELSE cb IN
               [st |-> WithCb(st, p, c), res |-> [r |-> "ok", ex |-> IsExcl(c)]]
     [] e.op = "setds" ->
          IF ~cb.some THEN [st |-> st, res |-> R("nocb")] ELSE [st |-> WithCb(st, p, [cb EXCEPT !.ds = e.v]), res |-> R("ok")]
@@ -337,9 +340,9 @@ Apply(st, e, dv) ==
          IF ~HasMgr(st.mg, p, e.id) THEN [st |-> st, res |-> R("nomgr")]
          ELSE LET m == MgrOf(st.mg, p, e.id)
                   rest == st.mg.ms \ {m}
-                  \* M2: the name lives as long as a living manager uses it; the code unlinks it at every drop
-                  unlink == "FX05h" \in dv \/ ~\E x \in rest : x.name = m.name /\ x.ob = m.ob
-              IN [st |-> [st EXCEPT !.mg.ms = rest, !.mg.nm[m.name] = IF unlink /\ @ = m.ob THEN 0 ELSE @], res |-> R("ok")]
+                  \* M2: the name lives as long as a living manager uses its object; the code unlinks it at every drop
+                  unlink == IF "FX05h" \in dv THEN TRUE ELSE st.mg.nm[m.name] = m.ob /\ ~\E x \in rest : x.ob = m.ob
+              IN [st |-> [st EXCEPT !.mg.ms = rest, !.mg.nm[m.name] = IF unlink THEN 0 ELSE @], res |-> R("ok")]
     [] e.op = "mwrite" ->
          IF ~HasMgr(st.mg, p, e.id) THEN [st |-> st, res |-> R("nomgr")]
          ELSE LET m == MgrOf(st.mg, p, e.id)
